@@ -27,4 +27,12 @@ SameFileSrcs == {[mode |-> "bp", cols |-> E2, select |-> sel, rename |-> rn] :
 PoolSrc2 == {[mode |-> "bp", ctx |-> c, src |-> s] : c \in {<<>>, [k \in {"b"} |-> 2]}, s \in SameFileSrcs}
 PoolMix == {[mode |-> m, ctx |-> c, src |-> s] : m \in {"bp", "comb"},
                c \in UNION {[S -> {1, 2, 3}] : S \in {{}, {"a"}, {"b"}, {"c"}, {"a", "b"}, {"d"}}}, s \in SmallSrcs}
+\* three blocks, exhaustively: a key may be declared twice by NEIGHBOURS or by blocks that are not neighbours, inline or by a
+\* source column (directly / after a rename)
+A2 == [k \in {"a"} |-> 2]
+Pool3 == {[mode |-> "bp", ctx |-> A2, src |-> NoSrc], [mode |-> "bp", ctx |-> [k \in {"b"} |-> 2], src |-> NoSrc],
+          [mode |-> "bp", ctx |-> [k \in {"c"} |-> 2], src |-> NoSrc],
+          [mode |-> "bp", ctx |-> <<>>, src |-> [mode |-> "bp", cols |-> A2, select |-> {"*"}, rename |-> <<>>]],
+          [mode |-> "bp", ctx |-> <<>>, src |-> [mode |-> "bp", cols |-> [k \in {"e"} |-> 2], select |-> {"*"}, rename |-> [k \in {"e"} |-> "a"]]],
+          [mode |-> "bp", ctx |-> [k \in {"d"} |-> 2], src |-> [mode |-> "bp", cols |-> [k \in {"e"} |-> 2], select |-> {"*"}, rename |-> <<>>]]}
 =============================================================================
